@@ -17,7 +17,7 @@ from ..link import check_module
 from ..poly import Poly
 from ..roles import RoleFlow, check_call, name_role
 from ..terms import Terms, reify, plain, match, V, ANY, show, subterms, \
-    mk_cmp, is_none, method_calls, alternatives
+    mk_cmp, is_none, method_calls, alternatives, layers
 from ..util import calls_in, qual, formals, returns_of, raises_of, \
     raise_name, has_fact, decorator_names, bind
 
@@ -58,11 +58,14 @@ EXEMPT = {
 }
 
 EXPLANATION = (
-    "R1: the writers of new_kwargs in the decorator's wrapper are ordered by "
-    "CFG dominance: signature defaults (missing ones Required) and "
-    "keyword-only defaults, then context values restricted to names already "
-    "present, then the explicit kwargs; the Required scan dominates the "
-    "call; the context dictionary merges the stack oldest to newest. R2: "
+    "R1: the dictionary passed as **keywords to the wrapped method is read "
+    "as an ordered overlay of layers (constructor, update(), loops copying "
+    "the entries of a mapping, with or without a 'key already present' "
+    "guard; any spelling): signature defaults offset by 1 + len(args) "
+    "(missing ones Required), keyword-only defaults, context values for "
+    "names already present, the explicit kwargs; the Required scan over "
+    "the finished dictionary dominates the call; the context dictionary "
+    "overlays the stack oldest to newest. R2: "
     "every path through Context.__exit__ (normal and exceptional) passes "
     "the pop, which is not inside an assert, after the callbacks. R3: ROLES "
     "inference over every self.* call of MachineController and "
@@ -76,117 +79,173 @@ NOT_DECIDED = ["timing of the stop signal on the wire",
 
 
 def r1_decorator(program, rep):
+    dec = program.get(CX + ":ContextMixin.use_contextual_arguments."
+                           "decorator")
     fn = program.get(CX + ":ContextMixin.use_contextual_arguments."
                           "decorator.f_")
+    outer = program.get(CX + ":ContextMixin.use_contextual_arguments")
     inst = qual(fn)
-    fl = Flow(fn)
-    cfg = fl.cfg
-    nk = None
-    for d in fl.defs:
-        if d.mode == "assign" and isinstance(d.value, ast.Call) and \
-                call_name(d.value)[0] == "dict" and "zip" in unparse(d.value):
-            nk = d
-    if nk is None:
-        raise AnalysisError("decorator wrapper: new_kwargs creation")
-    var = nk.var
-    t = unparse(nk.value)
-    ok0 = t == "dict(zip(arg_names[1 + len(args):], defaults[1 + " \
-               "len(args):]))"
+    TO = Terms(outer)
+    TD = Terms(dec, outer=(TO, TO.cfg.exit))
+    T = Terms(fn, outer=(TD, TD.cfg.exit))
+    cfg = T.cfg
+    ps = formals(fn)
+    va, kw = fn.args.vararg.arg, fn.args.kwarg.arg
+    F = ("param", formals(dec)[0])
+    calls = [c for st in fn.body for c in ast.walk(st)
+             if isinstance(c, ast.Call) and isinstance(c.func, ast.Name) and
+             T.term(c.func, cfg.node_containing(c)) == F]
+    if len(calls) != 1:
+        raise AnalysisError("decorator wrapper: expected one call of the "
+                            "wrapped method")
+    cn = cfg.node_containing(calls[0])
+    ct = T.term(calls[0], cn)
+    D = None
+    okf = ct[0] in ("call", "callv") and ct[2] == (
+        ("param", ps[0]), ("star", ("param", va))) and len(ct[3]) == 1 and \
+        ct[3][0][0] == "**"
+    if okf:
+        D = ct[3][0][1]
+    rep.check(okf, "C18-R1", inst, "the method is called with the caller's "
+              "positional arguments and the resolved keywords",
+              construct="wrapped call", node=calls[0])
+    if D is None or D[0] != "new":
+        raise AnalysisError("decorator wrapper: the keywords passed on are "
+                            "not a dictionary built here")
+    L = layers(T, D)
+    lay = [plain(l) for l, n in L]
+    SPEC = None
+    for st in (x for l_ in lay for x in subterms(l_)):
+        if st[0] == "call" and st[1] == ("attr", ("global", "inspect"),
+                                         "getfullargspec") and \
+                st[2] == (F,):
+            SPEC = ("item", st, ("slice", ("const", None), ("const", 4),
+                                 ("const", None)))
+    if SPEC is None:
+        SPEC = ("call", ("attr", ("global", "inspect"), "getfullargspec"),
+                (F,), ())
+    NAMES = ("comp", SPEC, 0)
+    NARGS = ("call", ("global", "len"), (("param", va),), ())
+    offs = [("slice", o, ("const", None), ("const", None)) for o in (
+        ("binop", "Add", ("const", 1), NARGS),
+        ("binop", "Add", NARGS, ("const", 1)))]
+    ok0 = False
+    DEFS = None
+    if lay and lay[0][0] == "all" and lay[0][1][0] == "zip":
+        k_, v_ = lay[0][1][1], lay[0][1][2]
+        ok0 = k_[0] == "item" and v_[0] == "item" and k_[1] == NAMES and \
+            k_[2] in offs and v_[2] == k_[2]
+        DEFS = v_[1] if ok0 else None
     rep.check(ok0, "C18-R1", inst, "candidates = the parameters not "
               "supplied positionally (names and defaults offset by 1 + "
               "len(args)), with their defaults",
-              construct="candidate map %s" % t, node=nk.value)
-    writers = []
-    for d in fl.defs:
-        if d.var == var and d.mode == "mut":
-            st = d.node.ast
-            writers.append((d.node, unparse(st)))
-    kinds = {}
-    for node, text in writers:
-        if text == "%s.update(kw_only_args_defaults)" % var:
-            kinds["kwonly"] = node
-        elif text == "%s.update(kwargs)" % var:
-            kinds["explicit"] = node
-        elif text.startswith("%s[name] = " % var):
-            kinds["context"] = node
-        else:
-            kinds.setdefault("other", []).append(text)
-    ok = set(kinds) == {"kwonly", "explicit", "context"}
-    calls = [c for c in calls_in(fn, "f")]
-    if ok and len(calls) == 1:
-        cn = cfg.node_containing(calls[0])
-        order = [nk.node, kinds["kwonly"], kinds["context"],
-                 kinds["explicit"]]
-        ok = all(cfg.dominates(order[i], order[i + 1]) or
-                 (cfg.reaches(order[i], order[i + 1]) and
-                  not cfg.reaches(order[i + 1], order[i]))
-                 for i in range(3)) and cfg.dominates(kinds["explicit"], cn)
+              construct="candidate map", node=fn,
+              fail="the first layer of the keyword dictionary is %s" %
+                   (show(lay[0])[:200] if lay else "missing"))
+    KWO = ("param", outer.args.kwarg.arg)
+    CTX = ("call", ("attr", ("param", ps[0]), "get_context_arguments"), (),
+           ())
+    want = [("all", KWO), ("present", CTX), ("all", ("param", kw))]
+    ok = lay[1:] == want
     rep.check(ok, "C18-R1", inst, "defaults, then keyword-only defaults, "
-              "then context values, then the caller's explicit keywords are "
-              "overlaid in that order before the call",
-              construct="overlay order %s" % sorted(
-                  k for k in kinds if k != "other"), node=fn,
-              fail="the overlay order of defaults / context / explicit "
-                   "arguments is not defaults < context < explicit (found "
-                   "writers %s)" % [t_ for _, t_ in writers])
-    # context values only for names already present, from the stack
-    okc = False
-    if "context" in kinds:
-        f = fl.facts(kinds["context"])
-        okc = has_fact(f, "name in %s" % var, True)
-        lp = kinds["context"].ast._parent
-        while lp is not None and not isinstance(lp, ast.For):
-            lp = lp._parent
-        src = chain(lp.iter.args[0]) if lp is not None and \
-            isinstance(lp.iter, ast.Call) and lp.iter.args else None
-        ds = fl.reaching(src, cfg.loop_head[id(lp)]) if src else []
-        okc = okc and len(ds) == 1 and unparse(ds[0].value) == \
-            "self.get_context_arguments()"
-    rep.check(okc, "C18-R1", inst, "a context value is used only for a "
-              "parameter the method has and the caller did not pass "
-              "positionally", construct="context restricted", node=fn)
+              "then context values (only for names already present), then "
+              "the caller's explicit keywords are overlaid in that order "
+              "before the call",
+              construct="overlay order", node=fn,
+              fail="the overlay of defaults / context / explicit arguments "
+                   "is not defaults < keyword-only defaults < context "
+                   "(present names only) < explicit; found %s" % [
+                       show(x)[:80] for x in lay])
+    rep.check(ok and lay[2][0] == "present", "C18-R1", inst, "a context "
+              "value is used only for a parameter the method has and the "
+              "caller did not pass positionally",
+              construct="context restricted", node=fn)
+    last = L[-1][1] if L else cn
+    rep.check(cfg.dominates(last, cn) or (cfg.reaches(last, cn) and
+                                          not cfg.reaches(cn, last)),
+              "C18-R1", inst, "the call comes after the overlay is complete",
+              construct="call after overlay", node=calls[0])
     # Required scan raises before the call
     okr = False
+    E = ("elem", ("items", D))
     for r in raises_of(fn):
-        if raise_name(r) == "TypeError":
-            f = fl.facts(cfg.node_of(r))
-            okr = has_fact(f, "v is Required", True)
-            lp = r._parent
-            while lp is not None and not isinstance(lp, ast.For):
-                lp = lp._parent
-            okr = okr and lp is not None and \
-                unparse(lp.iter) == "iteritems(%s)" % var and \
-                len(calls) == 1 and cfg.dominates(
-                    cfg.loop_head[id(lp)], cfg.node_containing(calls[0])) \
-                and cfg.dominates(kinds.get("explicit", cfg.exit),
-                                  cfg.loop_head[id(lp)])
+        if raise_name(r) != "TypeError":
+            continue
+        rn = cfg.node_of(r)
+        f = T.all_facts(rn)
+        if (mk_cmp("Is", ("comp", E, 1), ("global", "Required")), True) \
+                not in f:
+            continue
+        lp = r._parent
+        while lp is not None and not isinstance(lp, ast.For):
+            lp = lp._parent
+        if lp is None:
+            continue
+        head = cfg.loop_head[id(lp)]
+        # nothing else guards the raise, and no iteration is skipped
+        pre = T.all_facts(cfg.stmt_node[id(lp)])
+        extra = [x for x in f if x not in pre]
+        no_skip = not any(isinstance(x, (ast.Break, ast.Continue))
+                          for x in ast.walk(lp))
+        okr = T.term(lp.iter, head) == ("items", D) and len(extra) == 1 \
+            and no_skip and cfg.dominates(head, cn) and (
+                cfg.dominates(last, head) or
+                (cfg.reaches(last, head) and not cfg.reaches(head, last)))
     rep.check(okr, "C18-R1", inst, "after the overlay, any parameter still "
               "Required raises TypeError before the method is called",
               construct="required check", node=fn)
-    okf = len(calls) == 1 and unparse(calls[0]) == \
-        "f(self, *args, **%s)" % var
-    rep.check(okf, "C18-R1", inst, "the method is called with the caller's "
-              "positional arguments and the resolved keywords",
-              construct="wrapped call", node=fn)
-    dec = program.get(CX + ":ContextMixin.use_contextual_arguments."
-                           "decorator")
-    dfl = Flow(dec)
-    pad = [d for d in dfl.defs if d.var == "defaults" and d.mode == "assign"
-           and "Required" in unparse(d.value)]
-    okp = len(pad) == 1 and unparse(pad[0].value) == \
-        "[Required] * (len(arg_names) - len(defaults)) + list(defaults)"
+    # parameters without a default are Required
+    okp = False
+    if DEFS is not None:
+        for st in subterms(DEFS):
+            if st[0] == "binop" and st[1] == "Add":
+                okp = okp or _padding(TD, st, NAMES, SPEC)
+        okp = okp and DEFS[0] == "binop" and DEFS[1] == "Add"
     rep.check(okp, "C18-R1", qual(dec), "parameters without a default are "
-              "marked Required", construct="defaults padding", node=dec)
+              "marked Required (defaults padded on the left to the number "
+              "of parameters)", construct="defaults padding", node=dec)
     ga = program.get(CX + ":ContextMixin.get_context_arguments")
-    t = unparse(ga)
+    TG = Terms(ga)
+    rets = [r for r in returns_of(ga) if r.value is not None]
+    okg = len(rets) == 1
+    if okg:
+        R = TG.term(rets[0].value)
+        Lg = [plain(l) for l, n in layers(TG, R)]
+        STACK = ("attr", ("param", "self"), "__context_stack")
+        okg = Lg == [("foreach", STACK,
+                      ("all", ("attr", ("elem", STACK),
+                               "context_arguments")))]
     push = program.get(CX + ":Context.__enter__")
-    okg = "for context in self.__context_stack" in t and \
-        "cargs.update(context.context_arguments)" in t and \
-        "self.stack.append(self)" in unparse(push)
-    rep.check(okg, "C18-R1", qual(ga), "the stack is merged oldest to "
-              "newest (entering appends; later updates win)",
+    TP = Terms(push)
+    okpush = any(plain(recv) == ("attr", ("param", "self"), "stack") and
+                 [plain(a) for a in args] == [("param", "self")]
+                 for n, c, recv, args in method_calls(TP, "append"))
+    rep.check(okg and okpush, "C18-R1", qual(ga), "the stack is merged "
+              "oldest to newest (entering appends; later updates win)",
               construct="stack merge order", node=ga)
-    rep.floor("C18-R1", 7)
+    rep.floor("C18-R1", 8)
+
+
+def _padding(TD, t, NAMES, SPEC):
+    """t == [Required] * (len(names) - len(d)) + list(d), d the defaults of
+    the argument specification (or [] when there are none)."""
+    a, b = plain(t[2]), plain(t[3])
+    if not (a[0] == "binop" and a[1] == "Mult"):
+        return False
+    parts = [a[2], a[3]]
+    req = [x for x in parts if x == ("list", ("global", "Required"))]
+    cnt = [x for x in parts if x[0] == "binop" and x[1] == "Sub"]
+    if len(req) != 1 or len(cnt) != 1:
+        return False
+    cnt = cnt[0]
+    if cnt[2] != ("call", ("global", "len"), (NAMES,), ()) or \
+            cnt[3][0] != "call" or cnt[3][1] != ("global", "len"):
+        return False
+    d = cnt[3][2][0]
+    if b != ("call", ("global", "list"), (d,), ()):
+        return False
+    alts = set(plain(x) for x in alternatives(d))
+    return alts == {("comp", SPEC, 3), ("list",)}
 
 
 def r2_pairing(program, rep):
